@@ -78,6 +78,14 @@ func (c *Ctx) thorough32(prop string) {
 	}
 	R.Count("bounds_obligations_32bit", nOb)
 	R.Count("bounds_discharged_32bit", nOK)
+	// the declared size must not wrap where int is 32 bits wide
+	if prop == "C10" || prop == "C03" {
+		rule := prop + ".R1/386"
+		if prop == "C03" {
+			rule = "C03.R2/386"
+		}
+		c32.sizeIsHeaderMinus4(rule)
+	}
 }
 
 var bceLine = regexp.MustCompile(`^(.+\.go):(\d+):(\d+): Found (IsInBounds|IsSliceInBounds)`)
